@@ -112,6 +112,11 @@ PROJECTS = {
                                                        ('topmod.', 'from . import sib\nfrom .. import topmod\ntopmod.', (3, 7)),
                                                        ('topmod-only.', 'from .. import topmod\ntopmod.', (2, 7)), ('sib-only.', 'from . import sib\nsib.', (2, 4)),
                                                        ('user.', 'from . import user\nuser.', (2, 5))], 'pkq/sub/edited.py'),
+    'star-import-cycle-own-definitions-before-the-star-import': (
+        {'a.py': 'aa = 1\nfrom b import *\n', 'b.py': 'bb = 2\nfrom a import *\n'},
+        [('a.', 'import a\na.', (2, 2)), ('b.', 'import b\nb.', (2, 2)),
+         ('definition of a.aa', 'import a\na.aa', (2, 4), 'location'), ('definition of a.bb', 'import a\na.bb', (2, 4), 'location'),
+         ('definition of b.aa', 'import b\nb.aa', (2, 4), 'location'), ('definition of b.bb', 'import b\nb.bb', (2, 4), 'location')]),
     'from-import-cycle': ({'p.py': 'from q import qv\npv = 1\ndef pf(): return qv\n', 'q.py': 'from p import pv\nqv = 2\nclass Q:\n    attr = pv\n'},
                           [('p.', 'import p\np.', (2, 2)), ('q.', 'import q\nq.', (2, 2)), ('q.Q.', 'import q\nq.Q.', (2, 4)), ('p.pf().', 'import p\np.pf().', (2, 7))]),
 }
@@ -228,6 +233,10 @@ def request_pairs(run):
                 def ask2(project, req, edited=edited):
                     with project.check_changes():
                         try:
+                            if len(req) > 3 and req[3] == 'location':
+                                locs = A.location(project, req[1], req[2], os.path.join(top, edited))
+                                return [(os.path.basename(l['file']), tuple(l['loc'])) if isinstance(l, dict) else
+                                        [(os.path.basename(x['file']), tuple(x['loc'])) for x in l] for l in locs]
                             return A.assist(project, req[1], req[2], os.path.join(top, edited))[1]
                         except Exception as e:
                             return '<raised %s>' % type(e).__name__
